@@ -429,6 +429,13 @@ class Sched:
 
     def sleep(self, d):
         if d is None or d <= 0:
+            # sleep(0) gives the CPU away.  If nobody else can run (the others are asleep until a deadline)
+            # a spin-wait would hold virtual time still forever, which real time never does: let time pass
+            # to the next deadline, as if the caller had spun until then.
+            m = me()
+            if m is not None and m is self.cur and not self.in_sched:
+                if not any(t is not m for t in self._enabled()):
+                    self._advance_time()
             self.yield_point('sleep0', forced=True)
             return
         self.block(None, self.now + d, 'sleep')
@@ -1248,7 +1255,7 @@ def _line_cb(code, line):
             # injected *timed* delay (a long preemption): the thread sleeps in virtual time right
             # before executing this line, so timers of other threads can fire meanwhile
             for d in ld:
-                if d['thread'] == t.name and code.co_qualname.startswith(d['qual']):
+                if t.name.startswith(d['thread']) and code.co_qualname.startswith(d['qual']):
                     d['seen'] = d.get('seen', 0) + 1
                     if d['seen'] == d['nth']:
                         s.delays_fired.append((t.name, key, d['d'], s.now))
